@@ -172,6 +172,27 @@ REG["C13"] = {
                     "per-test-case attribution of output in the single-script executor (divider parsing)", "exit code capture", "where render_output is applied (subprocess_runner)"],
 }
 
+REG["C07"] = {
+    "units": ["lineparser", "cram"],
+    "scope": "LineParser (the Cram-style body grammar shared by both formats): add_testcase_body / end_testcase / flush / has_testcase_body / set_* equal the abstract state "
+             "machine s_body / s_end / ... (a `$ ` line starts a command and, when one is already collected, ends the previous test; `> ` continues it; `[n]` is the exit code, once; "
+             "every other line is an expectation; the test's line number is the 1-based index of its first `$` line). CramParser::parse(text) returns exactly cram_doc(lines(text)): "
+             "`#` lines are comments, an empty line ends the test, a line indented by the configured indent belongs to a body (indent removed, the rest kept verbatim) and gets the Cram "
+             "defaults, any other line ends the test and is the title of the next one; an error iff the line semantics has one. Lemma over that semantics (lemma_cram_doc): an accepted "
+             "document yields exactly one test case per indented `$` line, in document order, each with the Cram defaults (combined output, CRLF kept, skip code 80) and its 1-based line number. "
+             "TestCaseConfig::default_cram verified key by key.",
+    "assumptions": [
+        "str::lines (document -> lines) is uninterpreted; the expectation grammar (ExpectationMaker::parse, regex based: C08) and the exit-code pattern `[digits]` (extract_exit_code, regex) "
+        "are uninterpreted partial functions of the line's text",
+        "derived Clone of Expectation/TestCase/TestCaseConfig yields an equal value; derived Default of TestCaseConfig is 'every key unset' (shim, R39); Vec::join(\"\\n\"), "
+        "to_owned().unwrap_or_default() helpers (R37/R38)",
+        "title rule as implemented and documented (website/docs/reference/formats/cram-format.md): a title line belongs to the FIRST test case after it; later test cases of the same block have "
+        "an empty title. The statement's 'nearest preceding unindented title line' is read in that sense.",
+        "the number of lines is below usize::MAX (Vec capacity)",
+    ],
+    "not_decided": ["which lines the expectation regex accepts and how it splits them (C08)", "the exit-code regex", "CRLF handling of str::lines"],
+}
+
 VX_NOTE = ("Trusted: Verus/Z3; the extractor's rewrite rules (DESIGN §4.2, each firing is logged in evidence.rewrites_fired); "
            "prelude.rs shims and assume_specifications (mechanically scanned into evidence.trusted_base); "
            "machine integers are NOT idealised (usize overflow is an obligation).")
@@ -216,9 +237,12 @@ LEVELS["C13"] = {"category": "proof", "technique": "Verus postconditions on extr
     "text": "Unbounded proof over all byte strings of the two documented output transformations (CRLF -> LF unless keep_crlf; ANSI stripping only when asked). "
             "Partial: command transmission and byte-exact capture through bash/subprocess are out of reach and stated as not decided.",
     "design_ref": "DESIGN.md §5 C13", "note": VX_NOTE}
+LEVELS["C07"] = {"category": "proof", "technique": "Verus: LineParser methods and CramParser::parse proved equal to a line-by-line document semantics; statement-level lemma over that semantics",
+    "text": "Unbounded refinement proof over all documents (as sequences of lines): the real parser returns exactly the test cases of the line semantics cram_doc, an error iff it has one; "
+            "and every accepted document yields one test per indented `$` line, in order, with the Cram defaults and its 1-based line number.",
+    "design_ref": "DESIGN.md §5 C07", "note": VX_NOTE}
 
 NOT_APPLICABLE = [
-    {"property_id": "C07", "reason": "Cram parsing: reachable only by assuming contracts for the regex-based line classification; lowest assurance per hour, not built (DESIGN §10)"},
     {"property_id": "C08", "reason": "being built (quantifier round trip, partial) — not yet claimed"},
     {"property_id": "C09", "reason": "composition generate->parse->validate through format!-heavy rendering and the regex crate; contracts on the pieces in reach do not compose without a verified parser (DESIGN §10)"},
     {"property_id": "C10", "reason": "same composition plus MarkdownIterator; no contract within reach expresses byte-for-byte preservation through the regex-based tokenizer (DESIGN §10)"},
